@@ -1,6 +1,6 @@
 """C20 — everything the USB2 device transmits is a well-formed, solicited packet.
 
-Two kinds of cases:
+Three kinds of cases:
 
 * "mux"   the real `UTMIInterfaceMultiplexer` (interface/utmi.py, utils/bus.py) with 1..5 inputs, cycle by cycle
           against `TxMux.mux` (all valid patterns, including the non-one-hot ones the code leaves "undefined");
@@ -10,7 +10,12 @@ Two kinds of cases:
           `cycle_monitor`): every transmitted packet parses (PID check nibble, handshake length, CRC16 by the
           independent reference), comes from exactly one of the three transmitters, starts within the response
           window after a token / data packet addressed to the device, at most one per such packet, and
-          `tx_valid` never overlaps `rx_active`.
+          `tx_valid` never overlaps `rx_active`;
+* "cyc"   the same real device and host, cycle by cycle against the composition of the packet-layer models
+          (`Model/Device/DevCyc.lean`: token detector + receiver + timers + CRC + both generators + multiplexer as
+          wired in device.py; the endpoints' outputs are sampled from the real device and fed to the model), see
+          harness/props/c20_cyc.py.  The driver also evaluates the assumptions of `tx_never_during_rx` (hostOk,
+          envOk) on every sampled cycle; both are expected to hold.
 """
 from harness.common.framework import Case
 from harness.common.rng import Rng
@@ -18,46 +23,66 @@ from harness.common import sim
 from harness.common import devharness as DH
 from harness.props import dev_ctl
 from harness.props import devx_util as X
+from harness.props import c20_cyc as CY
 
 PROP = "C20"
-LEAN_MODULES = ["LunaVerif.Props.C20"]
+LEAN_MODULES = ["LunaVerif.Props.C20", "LunaVerif.Lemmas.C20CycAbs", "LunaVerif.Lemmas.C20CycInv",
+                "LunaVerif.Lemmas.C20CycRefine", "LunaVerif.Lemmas.C20CycMain", "LunaVerif.Lemmas.C20CycEvent"]
 DRIVER = "Driver/C20.lean"
 REQUIRED_THEOREMS = ["mux_single_source", "generator_idle_unless_stream_valid", "handshake_idle_unless_requested",
                      "every_response_is_handshake_or_crc_valid_data", "response_only_after_addressed_token_or_data",
-                     "at_most_one_transmitter_per_response"]
+                     "at_most_one_transmitter_per_response",
+                     # cycle-level composition (Model/Device/DevCyc.lean)
+                     "tx_never_during_rx", "tx_only_in_response_window", "transmitters_exclusive",
+                     "pulse_only_after_delay", "inv_step", "skel_step", "handshake_response_wire"]
 RULE = ("cases = 'mux' (number of inputs x random valid/data patterns, one-hot and overlapping) and 'full' (descriptor set, "
         "endpoint set {bulk IN, bulk OUT, status}, extra handlers) x adaptive LegalHost script (control transfers, bulk IN "
         "with lost/corrupted handshakes and retries, bulk OUT with retransmissions / overflow / PING, status polls, "
         "CLEAR_FEATURE(ENDPOINT_HALT), other devices' transactions, SOF, malformed packets, bus resets) x PHY timing "
-        "(byte gaps, tx_ready about 3 of 4 cycles); every generated event is checked against Full.legalEvent")
+        "(byte gaps, tx_ready about 3 of 4 cycles); every generated event is checked against Full.legalEvent; 'cyc' cases run the "
+        "same kind of script and compare the packet layer of the real device cycle by cycle with the composed model DevCyc "
+        "(inputs = UTMI receive side, tx_ready and everything the endpoints drive, sampled from the real device)")
 ASSUMPTIONS = dev_ctl.ASSUMPTIONS + [
     "bulk OUT data packets are at most max_packet_size long; stream events (produce / consume / signal change) happen "
     "between transactions",
     "full-speed-only device (a plain UTMI bus makes USBDevice select always_fs): the reset sequencer never chirps, so "
     "'outside reset chirping' is not exercised",
+    "cycle level (tx_never_during_rx): hostOk = the host keeps rx_active low while the response window is open (from the end of "
+    "an IN/PING token accepted by the token detector or of a data packet with a good CRC16 until the device's answer has ended, "
+    "or for T+1 = 17 cycles if no answer starts) and rx_valid only while rx_active; envOk = endpoint discipline E0-E4 of "
+    "Model/Device/DevCyc.lean with L = 8; speed constant (FULL); delay + L + 2 < T",
 ]
-PARTIAL = ("The transaction-level theorems hold for every state and event of the event-level model (tied to the real device "
-           "event by event); the cycle-level theorems cover the multiplexer and the two generators separately. NOT proved: "
-           "the cross-module timing link 'tx_valid implies not rx_active' (every request strobe is downstream of a "
-           "tx_allowed / ready_for_response pulse of an interpacket timer started when rx_active fell) and the refinement "
-           "from cycles to events - both are validated on the real device by the cycle monitor only "
-           "(sigs c20-tx-during-rx, c20-mixed-sources, c20-late-response).")
+PARTIAL = ("Proved: the transaction-level theorems for every state and event of the event-level model (tied to the real device "
+           "event by event), and at the cycle level 'tx_valid implies not rx_active', 'tx_valid only inside a response window', "
+           "'the two transmitters are never valid together' and the pulse timing for the composition token detector + receiver + "
+           "timers + CRC + handshake generator + data generator + UTMI multiplexer as wired in device.py (tied to the real "
+           "USBDevice cycle by cycle, including the evaluation of the theorem's host and endpoint assumptions on every sampled "
+           "cycle), with the endpoint logic as an assumed environment. NOT proved: (a) that the real endpoints satisfy the "
+           "environment discipline envOk for ALL histories (requests only at / at most L+1 cycles after a ready_for_response "
+           "pulse, one per pulse, no stream underrun, timer restart only in the cycle after a reception) - it is checked on "
+           "every co-simulated cycle instead, and holds by inspection of the C11/C13/C17 endpoint FSMs, see notes/C20.md; "
+           "(b) the refinement from cycles to events beyond the handshake-response case (handshake_response_wire: a handshake "
+           "request yields exactly the wire image of the event-level Resp.hs); data responses and the endpoints' choice of the "
+           "handshake are tied by the event-level co-simulation and the cycle monitor only; (c) high speed, where the setup "
+           "decoder ACKs without waiting for the timer (the composition is co-simulated at 12 MHz full speed only).")
 
 FULL_EPS = [["in", 1, 64], ["out", 2, 64], ["sig", 3, 16]]
 
 
 def gen_cases(tier, rng):
     if tier == "quick":
-        n_full, steps, n_mux = 36, 22, 16
+        n_full, steps, n_mux, n_cyc = 36, 22, 16, 12
     elif tier == "widen":
-        n_full, steps, n_mux = 120, 30, 20
+        n_full, steps, n_mux, n_cyc = 120, 30, 20, 40
     else:
-        n_full, steps, n_mux = 500, 40, 80
+        n_full, steps, n_mux, n_cyc = 500, 40, 80, 160
     out = []
     for k in range(n_full):
         out.append({"mode": "full", "seed": rng.u64(), "steps": steps, "k": k})
     for k in range(n_mux):
         out.append({"mode": "mux", "n": 1 + k % 5, "seed": rng.u64(), "k": k})
+    for k in range(n_cyc):
+        out.append({"mode": "cyc", "seed": rng.u64(), "steps": steps, "k": k})
     return out
 
 
@@ -144,7 +169,53 @@ def run_full(desc):
     return Case(X.cfg_ints_full(spec), inputs, outputs, fails, sorted(tags), d, ["event…"], X.NAMES_OUT)
 
 
+# ----------------------------------------------------------------------------- cycle-level composition
+def run_cyc(desc):
+    """The real full device, cycle by cycle, against the composition of the packet-layer models (`DevCyc`): the
+    endpoints' outputs are sampled from the real device and fed to the model as its environment."""
+    rng = Rng(desc["seed"])
+    tags = set()
+    spec = desc.get("spec") or make_full_spec(rng.fork("spec"))
+    h = CY.CycHarness(spec, rng.fork("timing"))
+    # a replay re-runs the adaptive host from the seed (the per-cycle rows contain the endpoints' outputs, which are
+    # not inputs of the real device, so `desc["stimulus"]` cannot be fed back; the run is a function of seed + spec)
+    host = X.FullHost(rng.fork("host"), spec, "c07", tags)
+
+    def script(_h):
+        return host.script(desc["steps"])
+    d = dict(desc)
+    d["spec"] = spec
+    log, hung = X.run_guarded(h, script)
+    if hung is not None:
+        return X.hang_case(X.cfg_ints_full(spec), h, hung, d, tags)
+    inputs, outputs = CY.rows(h)
+    fails = []
+    if h.speeds != {1}:
+        raise RuntimeError("the device's speed signal took the values %r; the composition is configured for FULL (1)" % sorted(h.speeds))
+    for t, (i, o) in enumerate(zip(inputs, outputs)):
+        if o[0] and i[0] and len(fails) < 3:
+            fails.append({"cycle": t, "sig": "c20-tx-during-rx", "what": "tx_valid while rx_active at cycle %d" % t})
+        if o[2] and o[3] and len(fails) < 3:
+            fails.append({"cycle": t, "sig": "c20-mixed-sources", "what": "handshake generator and data generator both valid at cycle %d" % t})
+        if i[5] or i[6] or i[7]:
+            tags.add("cyc:hs-request")
+        if o[3]:
+            tags.add("cyc:data-tx")
+        if o[2]:
+            tags.add("cyc:hs-tx")
+        if i[13]:
+            tags.add("cyc:ep-timer-start")
+        if o[16]:
+            tags.add("cyc:rx-ready")
+        if o[10]:
+            tags.add("cyc:tok-ready")
+    tags.add("mode:cyc")
+    return Case(CY.cfg_ints(), inputs, outputs, fails, sorted(tags), d, CY.NAMES_IN, CY.NAMES_OUT)
+
+
 def run_case(desc):
     if desc["mode"] == "mux":
         return run_mux(desc)
+    if desc["mode"] == "cyc":
+        return run_cyc(desc)
     return run_full(desc)
